@@ -42,8 +42,9 @@ type Conn struct {
 	conn    net.Conn
 	enabled imap.CapSet
 
-	state   imap.ConnState
-	session Session
+	state    imap.ConnState
+	readOnly bool // the selected mailbox was opened with EXAMINE
+	session  Session
 }
 
 func newConn(c net.Conn, server *Server) *Conn {
@@ -436,6 +437,20 @@ func (c *Conn) checkState(state imap.ConnState) error {
 	}
 	if c.state != state {
 		return newClientBugError(fmt.Sprintf("This command is only valid in the %s state", state))
+	}
+	return nil
+}
+
+// checkWritable fails if the selected mailbox was opened read-only.
+func (c *Conn) checkWritable() error {
+	if err := c.checkState(imap.ConnStateSelected); err != nil {
+		return err
+	}
+	if c.readOnly {
+		return &imap.Error{
+			Type: imap.StatusResponseTypeNo,
+			Text: "Mailbox is read-only",
+		}
 	}
 	return nil
 }
